@@ -133,6 +133,44 @@ static void structured(hx_rng *r, int n)
    }
 }
 
+
+/* implicit frame sizes far beyond 1275: the parser stores sizes in 16 bits, so sizes that wrap to a
+   small or negative opus_int16 (32768.., 65536+k, 2*65536+k, ...) must still be rejected. One case
+   per (code, M, padding, explicit sizes, S); payload is zeros (the parser never looks at it). */
+static void huge(hx_rng *r)
+{
+   static const int S[] = {1276, 1277, 2550, 32767, 32768, 32769, 32778, 34043, 65535, 65536, 65537, 65546, 66000, 66811, 66812,
+                           131072, 131082, 132347, 132348, 196608, 196618, 262154, 1048576, 1048586, 1049851};
+   static const int Ms[] = {1, 2, 3, 5, 48};
+   size_t cap = 9u << 20; unsigned char *buf = (unsigned char *)calloc(cap, 1);
+   int si, code, mi, vbr, hp, cfgs;
+   if (!buf) return;
+   for (si = 0; si < (int)(sizeof S / sizeof S[0]); si++) for (code = 0; code < 4; code++)
+   for (mi = 0; mi < (code == 3 ? 5 : 1); mi++) for (vbr = 0; vbr < (code == 3 ? 2 : 1); vbr++) for (hp = 0; hp < (code == 3 ? 2 : 1); hp++)
+   for (cfgs = 0; cfgs < 2; cfgs++) {
+      int M = code == 0 ? 1 : code < 3 ? 2 : Ms[mi], isvbr = code == 2 || (code == 3 && vbr), pos = 0, i, pad = 0, K, sd;
+      long len, d;
+      static const int deltas[] = {0, 1, -1};
+      int di;
+      memset(buf, 0, 256);
+      buf[pos++] = (unsigned char)((cfgs ? 0x0c : 0xf8) | (hx_u(r, 2) << 2) | code);
+      if (code == 3) {
+         buf[pos++] = (unsigned char)(M | hp << 6 | vbr << 7);
+         if (hp) { int last = hx_u(r, 2) ? 0 : hx_range(r, 1, 254); buf[pos++] = (unsigned char)last; pad = last; }
+      }
+      K = isvbr ? M - 1 : 0;
+      { int tot = 0; for (i = 0; i < K; i++) { int s = hx_u(r, 2) ? hx_range(r, 0, 20) : 0; pos += encode_size(s, buf + pos); tot += s; }
+        /* implicit part: one frame of size S (VBR last frame) or M frames of size S (CBR) */
+        len = (long)pos + tot + pad + (long)S[si] * (isvbr ? 1 : M); }
+      for (di = 0; di < 3; di++) {
+         d = len + deltas[di];
+         if (d < 0 || (size_t)d > cap) continue;
+         for (sd = 0; sd < 2; sd++) emit_case(buf, (int)d, sd);
+      }
+   }
+   free(buf);
+}
+
 static void fuzz(hx_rng *r, int n)
 {
    int it, i;
@@ -168,11 +206,16 @@ static void replay(void)
       int len, k = 0; char *q;
       if (!h || !n) continue;
       len = atoi(n + 4);
-      memset(g_buf, 0, sizeof g_buf);
+      {
+      unsigned char *b = g_buf; size_t cap = sizeof g_buf;
+      if (len > 0 && (size_t)len + 8 > cap) { cap = (size_t)len + 8; b = (unsigned char *)malloc(cap); if (!b) continue; }
+      memset(b, 0, cap);
       q = h + 5;
-      while (*q && *q != ']') { g_buf[k++] = (unsigned char)strtol(q, &q, 10); if (*q == ',') q++; }
-      if (strstr(line, "\"k\":\"help\"")) emit_helpers(g_buf, len);
-      else emit_case(g_buf, len, sd ? atoi(sd + 5) : 0);
+      while (*q && *q != ']' && (size_t)k < cap) { b[k++] = (unsigned char)strtol(q, &q, 10); if (*q == ',') q++; }
+      if (strstr(line, "\"k\":\"help\"")) emit_helpers(b, len);
+      else emit_case(b, len, sd ? atoi(sd + 5) : 0);
+      if (b != g_buf) free(b);
+      }
    }
 }
 
@@ -186,6 +229,7 @@ int main(int argc, char **argv)
    else if (!strcmp(cmd, "structured")) structured(&r, n);
    else if (!strcmp(cmd, "fuzz")) fuzz(&r, n);
    else if (!strcmp(cmd, "helpers")) helpers();
+   else if (!strcmp(cmd, "huge")) huge(&r);
    else { fprintf(stderr, "usage: hx_framing grid|structured|fuzz|helpers seed n\n"); return 2; }
    return 0;
 }
